@@ -45,6 +45,30 @@ fn tamper(dir: &Path, key: &str, value: Option<&str>) {
     db.flush().ok();
 }
 
+fn copy_dir(src: &Path, dst: &Path) {
+    let _ = std::fs::create_dir_all(dst);
+    if let Ok(rd) = std::fs::read_dir(src) {
+        for e in rd.flatten() {
+            let p = e.path();
+            let d = dst.join(e.file_name());
+            if p.is_dir() {
+                copy_dir(&p, &d);
+            } else {
+                let _ = std::fs::copy(&p, &d);
+            }
+        }
+    }
+}
+
+/// A directory created and populated under the given configuration through the public start() (then stopped).
+fn template(network: &str, traces: bool) -> Result<std::path::PathBuf, String> {
+    let dir = fresh_dir();
+    let mut s = start_server(&ServerCfg { dir: dir.clone(), auth: false, network: network.into(), traces })?;
+    populate(&s.addr);
+    s.stop();
+    Ok(dir)
+}
+
 pub fn run(tier: &str, seed: u64) -> i32 {
     let t0 = Instant::now();
     crate::inst::cleanup_stale_scratch();
@@ -122,29 +146,43 @@ pub fn run(tier: &str, seed: u64) -> i32 {
         }
         remove_dir(&dir);
     }
-    // (3) tampered / missing records, foreign directories
+    // (3) tampered / missing records, foreign directories. Directories created with trace recording on and with it off,
+    // each reopened under its creating configuration: a record that is missing or reads anything but the recorded
+    // value must refuse the start, whatever the configured value is (a missing trace record is not "off")
     let keys = ["DB_VERSION", "PROTOCOL_VERSION", "BITCOIN_RPC_NETWORK", "EVM_RECORD_TRACES"];
-    for k in keys {
-        for (what, val) in [("missing", None), ("altered", Some("999")), ("empty", Some(""))] {
-            let dir = fresh_dir();
-            match start_server(&ServerCfg { dir: dir.clone(), auth: false, network: "regtest".into(), traces: true }) {
-                Ok(mut s) => {
-                    populate(&s.addr);
-                    s.stop();
-                }
-                Err(e) => {
-                    errors.push(e);
+    let creating: Vec<(&str, bool)> = vec![("regtest", true), ("regtest", false)];
+    let mut templates: Vec<(String, bool, std::path::PathBuf)> = Vec::new();
+    for (cn, ct) in &creating {
+        match template(cn, *ct) {
+            Ok(d) => templates.push((cn.to_string(), *ct, d)),
+            Err(e) => errors.push(e),
+        }
+    }
+    let read_rec0 = |dir: &Path, key: &str| -> Option<String> {
+        let mut opts = rocksdb::Options::default();
+        opts.create_if_missing(false);
+        let db = rocksdb::DB::open(&opts, dir.join("config")).ok()?;
+        let v = db.get(key.to_string().encode_vec()).ok()??;
+        String::decode_vec(&v).ok()
+    };
+    for (cn, ct, tpl) in &templates {
+        for k in keys {
+            let recorded = read_rec0(tpl, k);
+            for (what, val) in [("missing", None), ("altered", Some("999")), ("empty", Some("")), ("'1'", Some("1")), ("'0'", Some("0")), ("'true'", Some("true")), ("'false'", Some("false")), ("'TRUE'", Some("TRUE")), ("'off'", Some("off"))] {
+                if val.is_some() && val.map(|v| v.to_string()) == recorded {
                     continue;
                 }
+                let dir = fresh_dir();
+                copy_dir(tpl, &dir);
+                tamper(&dir, k, val);
+                evals += 1;
+                mismatches += 1;
+                if let Ok(mut s) = start_server(&ServerCfg { dir: dir.clone(), auth: false, network: cn.clone(), traces: *ct }) {
+                    s.stop();
+                    vs.push(mk("tampered-record-accepted", format!("{} {} (created and reopened under {}/traces={})", k, what, cn, ct), format!("start() under {}/traces={} served a database created under the same configuration whose {} record is {} (recorded value {:?})", cn, ct, k, what, recorded)));
+                }
+                remove_dir(&dir);
             }
-            tamper(&dir, k, val);
-            evals += 1;
-            mismatches += 1;
-            if let Ok(mut s) = start_server(&ServerCfg { dir: dir.clone(), auth: false, network: "regtest".into(), traces: true }) {
-                s.stop();
-                vs.push(mk("tampered-record-accepted", format!("{} {}", k, what), format!("start() served a database whose {} record is {}", k, what)));
-            }
-            remove_dir(&dir);
         }
     }
     // near misses of each recorded value (a prefix / extension / case / whitespace variant must not pass), and
@@ -156,19 +194,11 @@ pub fn run(tier: &str, seed: u64) -> i32 {
         let v = db.get(key.to_string().encode_vec()).ok()??;
         String::decode_vec(&v).ok()
     };
+    for (cn, ct, tpl) in &templates {
     for k in keys {
         for variant in ["append-0", "append-.1", "drop-last-char", "upper-case", "leading-space", "trailing-newline"] {
             let dir = fresh_dir();
-            match start_server(&ServerCfg { dir: dir.clone(), auth: false, network: "regtest".into(), traces: true }) {
-                Ok(mut s) => {
-                    populate(&s.addr);
-                    s.stop();
-                }
-                Err(e) => {
-                    errors.push(e);
-                    continue;
-                }
-            }
+            copy_dir(tpl, &dir);
             let Some(cur) = read_rec(&dir, k) else {
                 errors.push(format!("recorded value of {} not readable", k));
                 remove_dir(&dir);
@@ -189,12 +219,13 @@ pub fn run(tier: &str, seed: u64) -> i32 {
             tamper(&dir, k, Some(&new));
             evals += 1;
             mismatches += 1;
-            if let Ok(mut s) = start_server(&ServerCfg { dir: dir.clone(), auth: false, network: "regtest".into(), traces: true }) {
+            if let Ok(mut s) = start_server(&ServerCfg { dir: dir.clone(), auth: false, network: cn.clone(), traces: *ct }) {
                 s.stop();
-                vs.push(mk("tampered-record-accepted", format!("{} {}", k, variant), format!("start() served a database whose {} record is {:?} instead of {:?}", k, new, cur)));
+                vs.push(mk("tampered-record-accepted", format!("{} {} (created and reopened under {}/traces={})", k, variant, cn, ct), format!("start() served a database whose {} record is {:?} instead of {:?}", k, new, cur)));
             }
             remove_dir(&dir);
         }
+    }
     }
     {
         let dir = fresh_dir();
@@ -265,30 +296,28 @@ pub fn run(tier: &str, seed: u64) -> i32 {
         remove_dir(&dir);
     }
     // a configuration database that holds only some of the recorded keys (a first start that died half-way)
-    for keep in 0..4usize {
-        let dir = fresh_dir();
-        match start_server(&ServerCfg { dir: dir.clone(), auth: false, network: "regtest".into(), traces: true }) {
-            Ok(mut s) => {
-                populate(&s.addr);
+    for (cn, ct, tpl) in &templates {
+        // keep = 4: all but the last record (a first start that died in front of its last write)
+        for keep in 0..5usize {
+            let dir = fresh_dir();
+            copy_dir(tpl, &dir);
+            for (i, k) in keys.iter().enumerate() {
+                if (keep < 4 && i != keep) || (keep == 4 && i == 3) {
+                    tamper(&dir, k, None);
+                }
+            }
+            evals += 1;
+            mismatches += 1;
+            if let Ok(mut s) = start_server(&ServerCfg { dir: dir.clone(), auth: false, network: cn.clone(), traces: *ct }) {
                 s.stop();
+                let what = if keep < 4 { format!("only {} recorded", keys[keep]) } else { "every record but the last one".to_string() };
+                vs.push(mk("tampered-record-accepted", format!("{} ({}/traces={})", what, cn, ct), format!("start() under {}/traces={} served a populated directory whose configuration database holds {}", cn, ct, what)));
             }
-            Err(e) => {
-                errors.push(e);
-                continue;
-            }
+            remove_dir(&dir);
         }
-        for (i, k) in keys.iter().enumerate() {
-            if i != keep {
-                tamper(&dir, k, None);
-            }
-        }
-        evals += 1;
-        mismatches += 1;
-        if let Ok(mut s) = start_server(&ServerCfg { dir: dir.clone(), auth: false, network: "regtest".into(), traces: true }) {
-            s.stop();
-            vs.push(mk("tampered-record-accepted", format!("only {} recorded", keys[keep]), format!("start() served a populated directory whose configuration database holds only {}", keys[keep])));
-        }
-        remove_dir(&dir);
+    }
+    for (_, _, tpl) in &templates {
+        remove_dir(tpl);
     }
     for what in ["hidden file only", "LOCK and LOG files only", "a sub-directory named like a table with a file in it"] {
         let dir = fresh_dir();
